@@ -41,6 +41,8 @@ func main() {
 	switch fam {
 	case "plan":
 		stats = famPlan(tr, *scratch, *seed, *tier, *workers)
+	case "schema":
+		stats = famSchema(tr, *scratch, *seed, *tier, *repo, *nfpmBin)
 	case "sign":
 		stats = famSign(tr, *scratch, *seed, *tier, *repo)
 	case "iso":
